@@ -100,6 +100,18 @@ def run_model(chk, quick):
         chk.add_tlc(cfg, res[cfg], note)
     if zero:
         raise vlib.Infra("WAL spec: actions never taken in any configuration: %s" % sorted(zero))
+    # multi-shard composition: N logs appended concurrently share nothing
+    rs = vlib.run_tlc("MC_WALShards", "MC_WALShards.cfg", timeout=600, coverage=True, workers=2, heap="2g")
+    vlib.tlc_must_hold(rs, "WALShards (one encoder per log)")
+    if rs.coverage_zero:
+        raise vlib.Infra("WALShards spec: actions never taken: %s" % rs.coverage_zero)
+    chk.add_tlc("MC_WALShards.cfg", rs, "3 shards x 2 datapoints, appends interleaved step by step, crash anywhere: OwnPrefix OwnComplete NoForeign")
+    rx = vlib.run_tlc("MC_WALShards", "MC_WALShards_shared.cfg", timeout=600, workers=2, heap="2g")
+    if rx.error:
+        raise vlib.Infra("WALShards shared-encoder config: TLC failed (%s)" % rx.error)
+    if not set(rx.violated) & {"OwnPrefix", "OwnComplete", "NoForeign"}:
+        raise vlib.Infra("model sensitivity lost: one encoder shared by all logs no longer violates OwnPrefix/OwnComplete/NoForeign")
+    chk.add_tlc("MC_WALShards_shared.cfg", rx, "expected model counterexample: logs that share one encoder object replay another shard's block (%s)" % rx.violated)
     cands = {}
     for cfg, (inv, what) in EXPECT_VIOLATED.items():
         r = res[cfg]
@@ -1103,6 +1115,9 @@ def run(chk):
         vlib.log("[C10] history %s %.0fs" % (name, time.time() - t0))
     if quick:
         run_lex_final(chk, binary)
+    t0 = time.time()
+    run_concurrent(chk, binary, quick, rnd)
+    vlib.log("[C10] concurrent shards %.0fs" % (time.time() - t0))
     chk.assumptions += [
         "process-crash model: a completed system call is durable, the call in flight at the crash is not applied, writes are not torn",
         "crash points are those of the recorded runs; strace sees every file-system mutating call (verified per run: full replay == real directory)",
@@ -1115,6 +1130,231 @@ def run(chk):
                       "(thorough) / every prefix ending in a log, tags-tree or block-file operation + a seeded sample (quick), plus every prefix of the recorded "
                       "recovery run and the ingest-before-recovery scenario; non-trivial = a state in which at least one log append had completed",
                  exhaustive=not quick)
+
+
+# =========================================================================== e2e: several shards ingested concurrently
+
+CONC_T0 = 1_700_100_000
+MAX_SANE_COUNT = 1_000_000      # a block that announces more datapoints than this is not given to the real reader (24 B each)
+
+
+def conc_value(g, i):
+    return f2hex(g * 1000000 + i + 0.5)
+
+
+def run_concurrent_round(binary, rnd_no, block_dps, n, flush_every_us, race_binary=None):
+    """One round: fresh engine, one goroutine per shard ingests through the real OpenTSDB handler into ITS shard (metric names
+    chosen so that they hash to different segments), the WAL buffer size is `block_dps` so that appendToWALBuffer appends from
+    the ingest goroutines, the flusher's loop body runs concurrently.  Then the process is killed and
+      (a) every datapoint log is read back with the real DPWalIterator: it must hold exactly what its shard appended, in order;
+      (b) restart + Recover* + refresh: every series has exactly its datapoints, in blocks and through the selector query.
+    -> (list of (key, what, detail), info)"""
+    bad, info = [], {"round": rnd_no, "block_dps": block_dps, "n": n}
+    sc = vlib.scratch("c10conc")
+    dr = None
+    try:
+        errp = os.path.join(sc, "stderr.txt")
+        dr = vlib.Driver(race_binary or binary, cwd=sc, stderr_path=errp)
+        dr.ok("init", dir="data", wait_ms=50)
+        dr.ok("wal_setmax", block_dps=block_dps)
+        byshard, nshards, k = {}, None, 0
+        while k < 2000 and (nshards is None or len(byshard) < nshards):
+            nm = "cs%d" % k
+            byshard.setdefault(str(dr.ok("wal_shard", name=nm)["mid"]), nm)
+            if nshards is None:
+                nshards = len(dr.ok("wal_states"))
+            k += 1
+        if nshards is None or len(byshard) < nshards:
+            raise vlib.Infra("could not find a metric name for every one of the %s metrics segments" % nshards)
+        shards = sorted(byshard)
+        info["shards"] = nshards
+        if nshards < 2:
+            info["skipped"] = "the engine runs a single metrics segment here: no concurrent appends of different shards"
+            return bad, info
+        groups = [[{"metric": byshard[sh], "tags": {"g": str(g), "v": "0"}}, {"metric": byshard[sh], "tags": {"g": str(g), "v": "1"}}] for g, sh in enumerate(shards)]
+        tsid = {}
+        for g, grp in enumerate(groups):
+            for j, se in enumerate(grp):
+                tsid[(g, j)] = dr.ok("wal_tsid", body=json.dumps({"metric": se["metric"], "tags": se["tags"], "timestamp": 1, "value": 1}))["tsid"]
+        try:
+            r = dr.ok("wal_conc_ingest", groups=groups, n=n, t0=CONC_T0, flush_every_us=flush_every_us, timeout_ms=90000, timeout=150)
+        except vlib.DriverDead as e:
+            if e.kind == "hang":
+                raise vlib.Infra("concurrent ingest round did not answer: %s" % e)
+            txt = open(errp, errors="replace").read()
+            kx = max(txt.rfind("panic:"), txt.rfind("fatal error:"))
+            first_trace = txt[kx:].split("\n\ngoroutine ", 2)
+            first_trace = "\n\ngoroutine ".join(first_trace[:2]) if kx >= 0 else ""
+            if not re.search(r"metrics/wal\.|appendToWALBuffer|VerifWalDPSFlushOnce|rotateWAL|initNewDpWal", first_trace):
+                # the process ended for a reason outside the log code (e.g. an unsynchronised map elsewhere in the ingest path):
+                # not a statement about the logs, and timing dependent
+                raise vlib.Infra("the engine died during the concurrent ingest, outside the WAL code (not a C10 verdict): %s" % " | ".join(first_trace.splitlines()[:10]))
+            return [("engine-died-during-ingest", "the engine process died while %d goroutines ingested into %d shards: %s :: %s" % (
+                len(groups), nshards, e, " | ".join(txt[kx:kx + 600].splitlines()[:8]) if kx >= 0 else ""), {})], info
+        info["elapsed_ms"], info["flusher_iterations"] = r["elapsed_ms"], r["flusher_iterations"]
+        panics = [(g, p) for g, gr in enumerate(r["goroutines"]) for p in (gr.get("panics") or [])] + [("flusher", p) for p in r.get("flusher_panics") or []]
+        if str(r.get("final_flush", "")).startswith("PANIC"):
+            panics.append(("final flush", r["final_flush"]))
+        if panics:
+            bad.append(("ingest-panic", "the WAL append path panicked while %d goroutines ingested into %d different shards: %s" % (
+                len(groups), nshards, ["%s: %s" % (g, p[:300]) for g, p in panics[:3]]), {"panics": panics[:6]}))
+        if r["hang"]:
+            if panics:
+                return bad, info          # a panic left a lock held: the verdict is the panic
+            raise vlib.Infra("concurrent ingest round hung without a panic (machine load?): %s" % json.dumps(r)[:300])
+        errs = [e for gr in r["goroutines"] for e in (gr.get("errors") or [])] + (r.get("flusher_errors") or [])
+        if errs or r.get("final_flush") not in ("ok",) and not panics:
+            bad.append(("append-error", "WAL appends / puts failed while %d goroutines ingested into %d different shards: %s" % (
+                len(groups), nshards, (errs or [r.get("final_flush")])[:3]), {"errors": errs[:6]}))
+        # what every shard appended, in its order
+        expected, owner = {}, {}
+        for g, sh in enumerate(shards):
+            rej = set(r["goroutines"][g].get("rejected_idx") or [])
+            seq = [(tsid[(g, i % 2)], CONC_T0 + i, conc_value(g, i)) for i in range(n) if i not in rej]
+            expected[sh] = seq
+            for it in seq:
+                owner[it] = sh
+        for op in ("wal_mnflush", "wal_ttflush", "wal_metaflush"):
+            dr.ok(op)
+        if race_binary:
+            dr.kill()
+            txt = open(errp, errors="replace").read()
+            info["race_reports"] = txt.count("WARNING: DATA RACE")
+            reports = [blk.split("==================")[0] for blk in txt.split("WARNING: DATA RACE")[1:]]
+            info["race_reports_in_wal_code"] = len([1 for blk in reports if "metrics/wal" in blk])
+            info["race_report_sites"] = sorted(set(" / ".join(re.findall(r"siglens/pkg/([\w/.()*]+)\(", blk)[:2]) for blk in reports))[:8]
+            return bad, info
+        dr.kill()
+        # ---- (a) crash, then every datapoint log read back with the real iterator
+        dr = vlib.Driver(binary, cwd=sc, stderr_path=errp)
+        dr.ok("init", dir="data", wait_ms=50)
+        files = [f["path"] for f in dr.ok("wal_files") if RE_DP.search("/wal-ts/" + f["path"])]
+        unsafe, blocks_total = False, 0
+        seen_shards = set()
+        for fpath in sorted(files):
+            sh = RE_DP.search("/wal-ts/" + fpath).group(1)
+            seen_shards.add(sh)
+            full = os.path.join("data", "vm.test-uuid", "wal-ts", fpath)
+            host = [d for d in os.listdir(os.path.join(sc, "data")) if os.path.isdir(os.path.join(sc, "data", d, "wal-ts"))]
+            full = os.path.join("data", host[0], "wal-ts", fpath)
+            scan = dr.ok("wal_scan", file=full)
+            blocks_total += len(scan["blocks"])
+            huge = [b for b in scan["blocks"] if b.get("crc_ok") and b.get("zstd_ok") and b.get("count", 0) > MAX_SANE_COUNT]
+            exp = expected.get(sh, [])
+            if huge:
+                unsafe = True
+                bad.append(("appended-block-garbage", "log %s of shard %s: a block with a VALID checksum announces %d datapoints (the shard buffered at most %d per append): "
+                            "the bytes written are not the block the shard encoded; the real reader would allocate %d MiB for it" % (
+                                fpath, sh, huge[0]["count"], block_dps, huge[0]["count"] * 24 >> 20), {"file": fpath, "block": huge[0]}))
+                continue
+            try:
+                d = dr.ok("wal_dump", file=full, kind="dp", timeout=120)
+            except vlib.Infra as e:
+                if "PANIC" in str(e):
+                    bad.append(("reader-panic", "log %s of shard %s, written by the engine itself: the real iterator panicked: %s" % (fpath, sh, str(e)[:400]), {"file": fpath}))
+                    continue
+                raise
+            items = [tuple(x) for x in d.get("items") or []]
+            mism = next((p for p, (a, b) in enumerate(zip(items, exp)) if a != b), None)
+            if mism is None and len(items) > len(exp):
+                mism = len(exp)
+            if mism is not None:
+                it = items[mism]
+                if it in owner and owner[it] != sh:
+                    key, how = "foreign-shard-datapoint", "a datapoint that shard %s appended" % owner[it]
+                elif it in owner:
+                    key, how = "out-of-order", "a datapoint of this shard, but not the one appended at that position"
+                else:
+                    key, how = "never-written-datapoint", "a datapoint nobody ever put"
+                bad.append((key, "log %s of shard %s: replayed datapoint #%d is %s = %s; the shard appended %s there (%d of %d replayed items differ)" % (
+                    fpath, sh, mism, list(it), how, list(exp[mism]) if mism < len(exp) else "nothing", sum(1 for a, b in zip(items, exp) if a != b) + max(0, len(items) - len(exp)), len(items)),
+                    {"file": fpath, "position": mism, "replayed": list(it), "appended": list(exp[mism]) if mism < len(exp) else None}))
+            if len(items) < len(exp) and mism is None:
+                bad.append(("appended-not-replayed", "log %s of shard %s: all %d appends had completed but the real iterator replays only the first %d of %d datapoints%s" % (
+                    fpath, sh, len(scan["blocks"]), len(items), len(exp), (" and stops with: %s" % d["err"]) if d.get("err") else ""), {"file": fpath, "err": d.get("err"), "scan_bad": [
+                        b for b in scan["blocks"] if not (b.get("crc_ok") and b.get("zstd_ok") and b.get("consistent"))][:3]}))
+        info["log_blocks"] = blocks_total
+        for sh in shards:
+            if sh not in seen_shards and expected[sh]:
+                bad.append(("appended-not-replayed", "shard %s appended %d datapoints but has no datapoint log" % (sh, len(expected[sh])), {}))
+        if unsafe or any(kx in ("reader-panic",) for kx, _, _ in bad):
+            info["recovery"] = "not run: a log block announces more than %d datapoints (the real recovery would allocate gigabytes)" % MAX_SANE_COUNT
+            return bad, info
+        # ---- (b) recovery
+        try:
+            dr.ok("wal_recover", timeout=120)
+        except vlib.Infra as e:
+            bad.append(("recovery-panic", "recovery of logs written by %d concurrently ingested shards failed: %s" % (nshards, str(e)[:400]), {}))
+            return bad, info
+        dr.ok("wal_refresh")
+        by_tsid = {}
+        for b in dr.ok("wal_blocks"):
+            if b.get("err"):
+                bad.append(("recovered-block-unreadable", "recovered block of shard %s: %s" % (b["mid"], b["err"]), {}))
+            for t, pts in (b.get("series") or {}).items():
+                by_tsid.setdefault(t, []).extend((p[0], p[1]) for p in (pts or []))
+        known = {v: k for k, v in tsid.items()}
+        stray = sorted(t for t in by_tsid if t not in known)
+        if stray:
+            bad.append(("recovered-unknown-series", "recovered blocks hold %d series ids that were never ingested, e.g. %s" % (len(stray), stray[:3]), {}))
+        for (g, j), t in sorted(tsid.items()):
+            want = [(CONC_T0 + i, conc_value(g, i)) for i in range(n) if i % 2 == j and i not in set(r["goroutines"][g].get("rejected_idx") or [])]
+            got = by_tsid.get(t, [])
+            if got != want:
+                extra = [x for x in got if x not in set(want)]
+                bad.append(("recovered-differs", "shard %s series %s: recovery stored %d datapoints, %d were appended; %d stored ones were never appended to it (first: %s)" % (
+                    shards[g], selector(0, [(groups[g][j]["metric"], groups[g][j]["tags"])]), len(got), len(want), len(extra), extra[:2]), {}))
+                break
+        for (g, j), t in sorted(tsid.items()):
+            se = [(groups[g][j]["metric"], groups[g][j]["tags"])]
+            q = dr.ok("mquery", promql=selector(0, se), start=CONC_T0 - 10, end=CONC_T0 + n + 10, step=1)
+            pts = {p[0]: p[1] for ps in (q.get("series") or {}).values() for p in ps}
+            want = {CONC_T0 + i: conc_value(g, i) for i in range(n) if i % 2 == j and i not in set(r["goroutines"][g].get("rejected_idx") or [])}
+            if pts != want:
+                bad.append(("query-after-recovery-differs", "shard %s %s: the selector query after recovery returns %d datapoints, %d were appended (%d wrong or foreign)%s" % (
+                    shards[g], selector(0, se), len(pts), len(want), len([1 for k2, v in pts.items() if want.get(k2) != v]), ("; " + str(q.get("qerr") or q.get("errs"))[:200]) if (q.get("qerr") or q.get("errs")) else ""), {}))
+                break
+        return bad, info
+    except vlib.DriverDead as e:
+        if e.kind == "hang":
+            raise vlib.Infra("engine did not answer in the concurrent-shards scenario: %s" % e)
+        bad.append(("engine-died", "engine process died in the concurrent-shards scenario (reading back / recovering logs it wrote itself): %s" % e, {}))
+        return bad, info
+    finally:
+        if dr is not None:
+            dr.kill()
+        vlib.rmtree(sc)
+
+
+def run_concurrent(chk, binary, quick, rnd):
+    rounds = [(50, 3000, 300), (rnd.choice([16, 24, 32, 80, 120]), rnd.choice([2000, 3000, 4000]), rnd.choice([100, 300, 1000]))]
+    if not quick:
+        rounds += [(rnd.choice([20, 40, 64, 100, 200]), rnd.choice([3000, 5000]), rnd.choice([100, 500, 2000])) for _ in range(4)]
+        rounds += [(10000, 25000, 1000)]            # the real buffer size: two size-triggered appends per shard + timer appends
+    infos = []
+    for no, (bd, n, fe) in enumerate(rounds):
+        bad, info = run_concurrent_round(binary, no, bd, n, fe)
+        infos.append(info)
+        chk.replayed(1)
+        chk.count(("concurrent-shards", bd, n), nontrivial=not info.get("skipped"))
+        seen = set()
+        for key, what, detail in bad:
+            if key in seen:
+                continue
+            seen.add(key)
+            rep = {"level": "e2e", "scenario": "concurrent-shards", "wal_block_flush_size": bd, "datapoints_per_goroutine": n, "flusher_every_us": fe,
+                   "goroutines": info.get("shards"), "value_of_datapoint": "g*1e6+i+0.5, timestamp %d+i, series i%%2 of goroutine g" % CONC_T0}
+            rep.update(detail)
+            chk.violation("C10:conc:" + key, "concurrent shards (buffer %d datapoints, %d per goroutine, %s goroutines): %s" % (bd, n, info.get("shards"), what), rep)
+    chk.cov["concurrent_shards"] = infos
+    if not quick:
+        # evidence only: the same scenario on a -race build (never a verdict)
+        try:
+            rb = vlib.build_driver(race=True)
+            _, info = run_concurrent_round(binary, 99, 50, 1500, 300, race_binary=rb)
+            chk.cov["concurrent_shards_race_build"] = {k: info.get(k) for k in ("race_reports", "race_reports_in_wal_code", "race_report_sites", "elapsed_ms", "shards")}
+        except (vlib.Infra, vlib.DriverDead, OSError) as e:
+            chk.cov["concurrent_shards_race_build"] = {"unavailable": str(e)[:200]}
 
 
 def run_lex_final(chk, binary):
